@@ -311,6 +311,26 @@ def correspond(binary, sub, seed, n, tier, workdir, replay=None, extra=None, dri
     return res
 
 
+def shrink_case(binary, sub, scn, sig, workdir):
+    """delta-debug a failing scenario (sub-harnesses that implement -shrink; others just replay it)"""
+    if sub not in ("graph",):
+        return None
+    try:
+        os.makedirs(workdir, exist_ok=True)
+        rp = os.path.join(workdir, "shrink-in.txt")
+        out = os.path.join(workdir, "shrink-out.tsv")
+        open(rp, "w").write(scn + "\n")
+        rc, o = sh([binary, sub, "-replay", rp, "-shrink", sig, "-out", out], env=GOENV, timeout=600, cwd=BUILD)
+        if rc != 0:
+            return None
+        cases = read_cases(out)
+        if cases and sig in cases[0][2]:
+            return cases[0][0], cases[0][1]
+    except Exception:
+        return None
+    return None
+
+
 # ---------------------------------------------------------------- known findings
 
 def load_known():
